@@ -2,17 +2,28 @@
 
 Engine T x G.  Two families of pool cases (one word per case, all configurations inside):
 
- 'd'  every non-constant word over {0..3}: peaks-only delta series and pseudo-cyclic peak
-      series, float / int / list input, constant offsets {+5, -2.5}.  Oracle: conservation
-      identities evaluated in exact rationals on the word (total variation, end-minus-start,
-      direction of the last movement) and a run-compression turning-point scan.
- 'p'  every non-constant word over {-3..3} + {0.2} (0.2 is a non-zero peak below a 10 % cut-off
-      when the record peak is 3 and exactly ON the cut-off when it is 2): power-law equivalent
+ 'd'  every non-constant word over {0..3}, and every non-constant word over the wide-dynamic-range
+      alphabet {7, M+7, M+9, M+6} (M = 2^22: steps of 1..3 at a distance of 4e6 from the other
+      level, all exact integers): peaks-only delta series and pseudo-cyclic peak series, float /
+      int / list input, constant offsets {+5, -2.5}, and the float record scaled by 1e-9 (a
+      record whose whole amplitude is tiny in absolute terms).  Oracle: conservation identities
+      evaluated in exact rationals on the samples actually passed (total variation,
+      end-minus-start, direction of the last movement) and a run-compression turning-point scan.
+ 'p'  every non-constant word over {-3..3} + {0.2} + {0.02} (0.2 is a non-zero peak below a 10 %
+      cut-off when the record peak is 3 and exactly ON the cut-off when it is 2; 0.02 is a
+      non-zero peak below 1 % of a record peak of 3, i.e. data on which the smallest allowed
+      cut-off, 0, differs from every small positive one): power-law equivalent
       cycles / equivalent amplitude, b x cut_off x a_ref menu, scalar and array b.  Oracle:
       relations between executions (inverse, scaling, 2^b, geometric mean), plus - only where a
       non-zero peak lies below the cut-off, so that the inverse relation cannot hold - the direct
       formula over reference excursion maxima and the relation "counting with a cut-off ==
       counting the record with the sub-cut-off excursions zeroed, without cut-off".
+      n_cyc is passed as a python float, as a 0-d and a (1,) ndarray, and as the last row of the
+      cycle series exactly as returned (the object a caller hands on); the same n_cyc object is
+      used for a sequence of calls (combined, then single component).
+
+Every call goes through pcall(): all ndarray / list arguments are snapshotted around the call
+(a query leaves its arguments unchanged).
 """
 from fractions import Fraction
 
@@ -20,10 +31,14 @@ import numpy as np
 
 from ..target import im, peaks_and_crossings as pc
 from ..result import Res
-from ..compare import words
+from ..compare import words, snapshot
 
 SIG_D = (0, 1, 2, 3)
-SIG_P = (-3, -2, -1, 0, 0.2, 1, 2, 3)
+WIDE_M = 2 ** 22    # distance between the two levels of the wide-dynamic-range alphabet (exact in float64 / int64)
+SIG_W = (7, WIDE_M + 7, WIDE_M + 9, WIDE_M + 6)
+TINY_SCALE = 1e-9   # the float record scaled to a tiny absolute amplitude
+TINY = 0.02         # non-zero level below 1 % of the largest level 3
+SIG_P = (-3, -2, -1, 0, TINY, 0.2, 1, 2, 3)
 BS = (0.1, 0.34, 1.0)
 B_ARR = (0.1, 0.34)
 CUTS = (0.0, 0.1)
@@ -36,30 +51,47 @@ ALPHA_N = 4.0       # joint scaling of record and a_ref (dyadic: every threshold
 
 def build(tier, seed):
     ld = 7 if tier == 'quick' else 8
+    lw = ld - 1
     lp = 5 if tier == 'quick' else 6
     cases = [['d', list(w)] for w in words(SIG_D, 2, ld, nonconstant=True)]
-    # power-law family: all words over {-3..3} up to lp, all words containing the 0.2 level up to lp-1
-    cases += [['p', list(w)] for w in words(SIG_P, 2, lp, nonconstant=True) if 0.2 not in w or len(w) < lp]
+    cases += [['d', list(w)] for w in words(SIG_W, 2, lw, nonconstant=True)]
+    # power-law family: all words over {-3..3} up to lp, all words containing the 0.2 level up to lp-1,
+    # all words containing the 0.02 level up to lp-2
+    cases += [['p', list(w)] for w in words(SIG_P, 2, lp, nonconstant=True)
+              if (0.2 not in w or len(w) < lp) and (TINY not in w or len(w) < lp - 1)]
     return {
         'cases': cases,
-        'rule': "'d': all non-constant words over {0..3} of length 2..%d x {float64, int64, list} x offsets {0,+5,-2.5} "
-                "x {delta series, pseudo-cyclic series}; 'p': all non-constant words over {-3..3} of length 2..%d and over {-3..3}+{0.2} of length 2..%d "
-                "x b in %s (+ array b %s) x cut_off in %s x a_ref in %s, n_cyc=%s, second component 2*reversed (b=0.1, 1.0) / "
-                "-rolled (b=0.34); non-trivial = word with an interior turning point ('d') / with two or more non-zero "
-                "excursions ('p')" % (ld, lp, lp - 1, list(BS), list(B_ARR), list(CUTS), list(AREFS), NCYC),
-        'bounds': {'delta_alphabet': SIG_D, 'delta_max_len': ld, 'power_alphabet': SIG_P, 'power_max_len': lp, 'power_max_len_with_0.2': lp - 1,
-                   'b': BS, 'b_array': B_ARR, 'cut_off': CUTS, 'a_ref': AREFS, 'n_cyc': NCYC, 'offsets': SHIFTS,
+        'rule': "'d': all non-constant words over {0..3} of length 2..%d and over the wide-range alphabet %s of length 2..%d "
+                "x {float64, int64, list} x offsets {0,+5,-2.5} + the float record scaled by %g "
+                "x {delta series, pseudo-cyclic series}; 'p': all non-constant words over {-3..3} of length 2..%d, over {-3..3}+{0.2} of length 2..%d "
+                "and over {-3..3}+{0.2}+{%s} of length 2..%d "
+                "x b in %s (+ array b %s) x cut_off in %s x a_ref in %s, n_cyc=%s as float / 0-d ndarray / (1,) ndarray and "
+                "n_cyc = last row of the returned cycle series (same object for combined, then single), second component 2*reversed (b=0.1, 1.0) / "
+                "-rolled (b=0.34); every ndarray / list argument snapshotted around every call; "
+                "non-trivial = word with an interior turning point ('d') / with two or more non-zero "
+                "excursions ('p')" % (ld, list(SIG_W), lw, TINY_SCALE, lp, lp - 1, TINY, lp - 2, list(BS), list(B_ARR), list(CUTS),
+                                      list(AREFS), NCYC),
+        'bounds': {'delta_alphabet': SIG_D, 'delta_max_len': ld, 'delta_wide_alphabet': SIG_W, 'delta_wide_max_len': lw,
+                   'delta_tiny_scale': TINY_SCALE, 'power_alphabet': SIG_P, 'power_max_len': lp,
+                   'power_max_len_with_0.2': lp - 1, 'power_max_len_with_%s' % TINY: lp - 2,
+                   'b': BS, 'b_array': B_ARR, 'cut_off': CUTS, 'a_ref': AREFS, 'n_cyc': NCYC,
+                   'n_cyc_containers': ['float', '0-d ndarray', '(1,) ndarray', 'last row of the cycle series'], 'offsets': SHIFTS,
                    'alpha_amp': ALPHA_AMP, 'alpha_n': ALPHA_N},
-        'required_classes': ['delta:float', 'delta:int', 'delta:list', 'delta:offset', 'plateau', 'monotone',
+        'required_classes': ['delta:float', 'delta:int', 'delta:list', 'delta:offset', 'delta:tiny-scale', 'plateau', 'monotone',
                              'interior-turning', 'last-move-up', 'last-move-down', 'first-move-down',
+                             'small-step-far-from-start',
                              'inverse-checked', 'inverse-interior-index', 'sub-cutoff-peak', 'cutoff-exact-tie',
+                             'no-cutoff-peak-below-1%', 'n_cyc:0-d', 'n_cyc:(1,)', 'n_cyc:last-row', 'inverse-array-b',
                              'scalar-b', 'array-b', 'int-input', 'gm-different-components',
                              'first-excursion-max-at-0', 'zero-valued-sample'],
         'assumptions': ['sample values outside the alphabets and lengths above the bounds are not examined',
                         'b, cut_off, a_ref, n_cyc only on the menu',
                         'turning points of a plateau: any sample of an extremal plateau is accepted as "the peak"',
                         'a peak exactly on the cut-off (0.2 == 0.1*2 in binary floating point) is not below it',
-                        'combined-amplitude function is exercised with scalar b only (documented as float)'],
+                        'combined-amplitude function is exercised with scalar b only (documented as float)',
+                        'dynamic range of a record: steps down to 2.4e-7 of the distance from the first sample '
+                        '(wide-range alphabet) and absolute amplitudes down to 1e-9 (scaled record); nothing finer',
+                        'n_cyc containers other than float / 0-d / (1,) / (len(b),) float64 ndarrays are not examined'],
     }
 
 
@@ -122,16 +154,37 @@ def as_series(v, n, ncol=None):
     return a if a.shape == (n, ncol) else None
 
 
+def pcall(r, claim, sub, fn, *args, **kw):
+    """r.call() + purity: every ndarray / list argument is snapshotted around the call; a query
+    must leave its arguments unchanged (records, b arrays, n_cyc arrays - also when the argument
+    is a view into an earlier result)."""
+    held = [(i, a, snapshot(a)) for i, a in enumerate(args) if isinstance(a, (np.ndarray, list))]
+    ok, out = r.call(claim, sub, fn, *args, **kw)
+    for i, a, before in held:
+        r.n_cmp += 1
+        if snapshot(a) != before:
+            r.fail(claim.split('.')[0] + '.args-unchanged', dict(sub, call=getattr(fn, '__name__', '?'), arg=i),
+                   'positional argument %d was modified by the call' % i, observed=a,
+                   expected=before[-1] if before[0] == 'py' else np.frombuffer(before[3], dtype=before[1]))
+    return ok, out
+
+
 # ------------------------------------------------------------------------------ delta family
+def exact_identities(vals):
+    """(total variation, end minus start, direction of the last movement, first movement) in exact
+    rationals of the samples actually passed."""
+    q = [Fraction(v) for v in vals]
+    tv = sum(abs(q[i + 1] - q[i]) for i in range(len(q) - 1))
+    net = q[-1] - q[0]
+    moves = [q[i + 1] - q[i] for i in range(len(q) - 1) if q[i + 1] != q[i]]
+    return tv, net, (1 if moves[-1] > 0 else -1), (1 if moves[0] > 0 else -1)
+
+
 def run_delta(r, w):
     n = len(w)
     rs = compress(w)
     firsts, allowed = turning(w)
-    tv = sum(abs(Fraction(w[i + 1]) - Fraction(w[i])) for i in range(n - 1))
-    net = Fraction(w[-1]) - Fraction(w[0])
-    moves = [w[i + 1] - w[i] for i in range(n - 1) if w[i + 1] != w[i]]
-    last = 1 if moves[-1] > 0 else -1
-    want_cyc = tv / 2 + net / 2 * last
+    tv, net, last, first = exact_identities(w)
     interior = len(firsts) > 2
     if interior:
         r.nontrivial += 1
@@ -141,18 +194,33 @@ def run_delta(r, w):
     if len(rs) < n:
         r.cls('plateau')
     r.cls('last-move-up' if last > 0 else 'last-move-down')
-    if moves[0] < 0:
+    if first < 0:
         r.cls('first-move-down')
-    ftv = float(tv)
-    configs = [('float', 0), ('float', 5), ('float', -2.5), ('int', 0), ('int', 5), ('list', 0)]
+    # a step that is tiny relative to the distance the series has reached from its first sample
+    if any(0 < abs(w[i + 1] - w[i]) * 10 ** 5 <= abs(w[i] - w[0]) for i in range(n - 1)):
+        r.cls('small-step-far-from-start')
+    configs = [('float', 0, 1), ('float', 5, 1), ('float', -2.5, 1), ('int', 0, 1), ('int', 5, 1), ('list', 0, 1),
+               ('float', 0, TINY_SCALE)]
     base = {}
-    for kind, sh in configs:
+    for kind, sh, sc in configs:
         if kind == 'float':
-            arr = np.array(w, dtype=float) + sh
+            arr = np.array(w, dtype=float) * sc + sh
         elif kind == 'int':
             arr = np.array(w, dtype=np.int64) + int(sh)
         else:
             arr = [float(v) for v in w]
+        if sc == 1:
+            c_tv, c_net = tv, net          # offsets: the identities do not depend on a constant shift
+        else:
+            # scaled record: exact identities of the (rounded) samples actually passed; positive scaling keeps
+            # order, plateaus and turning points of the word
+            c_tv, c_net, c_last, _ = exact_identities(arr.tolist())
+            if c_last != last or len(set(arr.tolist())) != len(set(w)):
+                r.disabled['scaled record does not preserve the order of the word'] += 1
+                continue
+            r.cls('delta:tiny-scale')
+        want_cyc = c_tv / 2 + c_net / 2 * last
+        ftv = float(c_tv)
         r.states += 1
         r.cls('delta:' + kind)
         if sh:
@@ -160,7 +228,9 @@ def run_delta(r, w):
         for name, fn in (('delta', pc.determine_peaks_only_delta_series),
                          ('cyclic', pc.determine_pseudo_cyclic_peak_only_series)):
             sub = {'w': w, 'input': kind, 'offset': sh}
-            ok, out = r.call(name + '.returns', sub, fn, arr)
+            if sc != 1:
+                sub['scale'] = sc
+            ok, out = pcall(r, name + '.returns', sub, fn, arr)
             if not ok:
                 continue
             s = as_series(out, n)
@@ -173,9 +243,11 @@ def run_delta(r, w):
                      observed=s, expected='zeros outside %r' % (sorted(allowed),))
             if name == 'delta':
                 r.expect_close('delta.abs-sum', sub, float(np.sum(np.abs(s))), ftv, rtol=1e-9)
-                r.expect_close('delta.signed-sum', sub, abs(float(np.sum(s))), abs(float(net)), rtol=1e-9, scale=ftv)
+                r.expect_close('delta.signed-sum', sub, abs(float(np.sum(s))), abs(float(c_net)), rtol=1e-9, scale=ftv)
             else:
                 r.expect_close('cyclic.sum', sub, float(np.sum(s)), float(want_cyc), rtol=1e-9, scale=ftv)
+            if sc != 1:
+                continue
             if sh == 0:
                 base[(kind, name)] = s
             elif (kind, name) in base:
@@ -206,6 +278,39 @@ def check_series(r, claim, sub, out, n, ncol=None):
     if s.shape[0] > 1 and np.any(np.diff(s, axis=0) < -1e-12 * pk):
         r.fail(claim + '.monotone', sub, 'series decreases', observed=s)
     return s
+
+
+def last_row_sequence(r, sub, x, n, n_out, ns, a_ref, b):
+    """N handed on exactly as the caller gets it: the last row of the returned cycle series (for an ndarray
+    result a view into that series).  The SAME object is used first for the two-identical-components amplitude
+    and then for the single-component amplitude: 2^b * a_ref and a_ref (inverse relation), and the cycle series
+    the row belongs to is still the one that was returned."""
+    try:
+        row = n_out[-1]
+    except Exception:
+        return
+    r.cls('n_cyc:last-row')
+    s2 = dict(sub, n_cyc='last row of the cycle series')
+    r.states += 1
+    ok, out = pcall(r, 'powerlaw.combined.returns', s2, im.calc_cyc_amp_combined_arrays_w_power_law, x.copy(), x.copy(),
+                    row, b)
+    if ok:
+        c = check_series(r, 'powerlaw.combined', s2, out, n)
+        if c is not None:
+            r.transitions += 1
+            r.expect_close('powerlaw.inverse-combined', s2, float(c[-1]), 2.0 ** b * a_ref, rtol=1e-9,
+                           what='combined amplitude of two identical components for N = cycles(a_ref)')
+    s3 = dict(s2, after='combined')
+    ok, out = pcall(r, 'powerlaw.amp.returns', s3, im.calc_cyc_amp_array_w_power_law, x.copy(), row, b)
+    if ok:
+        am = check_series(r, 'powerlaw.amp', s3, out, n)
+        if am is not None:
+            r.transitions += 1
+            r.expect_close('powerlaw.inverse-same-n', s3, float(am[-1]), a_ref, rtol=1e-9,
+                           what='amplitude for N = cycles(a_ref), same N object as in the preceding combined call')
+    after = as_series(n_out, n)
+    r.expect('powerlaw.result-stable', s2, after is not None and np.array_equal(after, ns),
+             'the cycle series changed while its last row was used as n_cyc', observed=after, expected=ns)
 
 
 def run_power(r, w):
@@ -241,15 +346,19 @@ def run_power(r, w):
             for a_ref in AREFS:
                 sub = {'w': w, 'b': b, 'cut_off': cut, 'a_ref': a_ref}
                 r.states += 1
-                ok, out = r.call('powerlaw.n.returns', sub, im.calc_n_cyc_array_w_power_law, x.copy(), a_ref, b,
+                ok, out = pcall(r, 'powerlaw.n.returns', sub, im.calc_n_cyc_array_w_power_law, x.copy(), a_ref, b,
                                  cut_off=cut)
                 if not ok:
                     continue
                 ns = check_series(r, 'powerlaw.n', sub, out, n)
                 if ns is None:
                     continue
+                n_out, ns = out, np.array(ns)    # ns: private copy (the normalised series may be a view of the result)
                 n_cache[(b, cut, a_ref)] = ns
                 nf = float(ns[-1])
+                if cut == 0 and any(0 < pk * 100 < amax for idx, pk in exc):
+                    # the smallest allowed cut-off on data where it differs from every "small" positive one
+                    r.cls('no-cutoff-peak-below-1%')
                 if not r.expect('powerlaw.inverse', sub, nf > 0, 'final equivalent number of cycles is not positive',
                                 observed=ns):
                     continue
@@ -266,7 +375,7 @@ def run_power(r, w):
                     for v in vals:
                         where = [i for i in range(n) if float(ns[i]) == v]
                         s2 = dict(sub, N=v)
-                        ok, out = r.call('powerlaw.amp.returns', s2, im.calc_cyc_amp_array_w_power_law, x.copy(), v, b)
+                        ok, out = pcall(r, 'powerlaw.amp.returns', s2, im.calc_cyc_amp_array_w_power_law, x.copy(), v, b)
                         if not ok:
                             continue
                         am = check_series(r, 'powerlaw.amp', s2, out, n)
@@ -282,13 +391,15 @@ def run_power(r, w):
                             r.expect_close('powerlaw.inverse-series', dict(sub, at=inner), am[inner],
                                            np.full(len(inner), a_ref), rtol=1e-9,
                                            what='amplitude for N = cycles(a_ref)[i] at index i')
+                    if a_ref == AREFS[-1] and cut == CUTS[0]:
+                        last_row_sequence(r, sub, x, n, n_out, ns, a_ref, b)
                 else:
                     r.cls('sub-cutoff-peak')
                     # (i) counting with the cut-off == counting the record with those excursions removed
                     x0 = x.copy()
                     for idx in below:
                         x0[idx] = 0.0
-                    ok, out = r.call('powerlaw.n.returns', dict(sub, zeroed=below), im.calc_n_cyc_array_w_power_law,
+                    ok, out = pcall(r, 'powerlaw.n.returns', dict(sub, zeroed=below), im.calc_n_cyc_array_w_power_law,
                                      x0, a_ref, b, cut_off=0.0)
                     if ok:
                         n0 = check_series(r, 'powerlaw.n', dict(sub, zeroed=below), out, n)
@@ -302,7 +413,7 @@ def run_power(r, w):
                     want_n = sum(0.5 * (pk / a_ref) ** (1.0 / b) for pk in kept)
                     r.expect_close('powerlaw.cutoff-direct-n', sub, nf, want_n, rtol=1e-9,
                                    what='final cycles vs sum over excursion maxima not below the cut-off')
-                    ok, out = r.call('powerlaw.amp.returns', dict(sub, N=nf), im.calc_cyc_amp_array_w_power_law,
+                    ok, out = pcall(r, 'powerlaw.amp.returns', dict(sub, N=nf), im.calc_cyc_amp_array_w_power_law,
                                      x.copy(), nf, b)
                     if ok:
                         am = check_series(r, 'powerlaw.amp', dict(sub, N=nf), out, n)
@@ -313,7 +424,7 @@ def run_power(r, w):
                 # cycles are invariant when record and reference amplitude scale together
                 if a_ref != AREFS[0]:
                     continue
-                ok, out = r.call('powerlaw.n.returns', dict(sub, alpha=ALPHA_N), im.calc_n_cyc_array_w_power_law,
+                ok, out = pcall(r, 'powerlaw.n.returns', dict(sub, alpha=ALPHA_N), im.calc_n_cyc_array_w_power_law,
                                  ALPHA_N * x, ALPHA_N * a_ref, b, cut_off=cut)
                 if ok:
                     n2 = check_series(r, 'powerlaw.n', dict(sub, alpha=ALPHA_N), out, n)
@@ -324,7 +435,7 @@ def run_power(r, w):
         # ---- amplitude for a fixed number of cycles
         sub = {'w': w, 'b': b, 'n_cyc': NCYC}
         r.states += 1
-        ok, out = r.call('powerlaw.amp.returns', sub, im.calc_cyc_amp_array_w_power_law, x.copy(), NCYC, b)
+        ok, out = pcall(r, 'powerlaw.amp.returns', sub, im.calc_cyc_amp_array_w_power_law, x.copy(), NCYC, b)
         a1 = check_series(r, 'powerlaw.amp', sub, out, n) if ok else None
         if a1 is None:
             continue
@@ -334,20 +445,32 @@ def run_power(r, w):
                  observed=a1)
         for alpha in (ALPHA_AMP,):
             s2 = dict(sub, alpha=alpha)
-            ok, out = r.call('powerlaw.amp.returns', s2, im.calc_cyc_amp_array_w_power_law, alpha * x, NCYC, b)
+            ok, out = pcall(r, 'powerlaw.amp.returns', s2, im.calc_cyc_amp_array_w_power_law, alpha * x, NCYC, b)
             if ok:
                 a3 = check_series(r, 'powerlaw.amp', s2, out, n)
                 if a3 is not None:
                     r.transitions += 1
                     r.expect_close('powerlaw.amp-scaling', s2, a3, alpha * a1, rtol=1e-9)
-        ok, out = r.call('powerlaw.combined.returns', sub, im.calc_cyc_amp_combined_arrays_w_power_law, x.copy(),
+        ok, out = pcall(r, 'powerlaw.combined.returns', sub, im.calc_cyc_amp_combined_arrays_w_power_law, x.copy(),
                          x.copy(), NCYC, b)
         if ok:
             c = check_series(r, 'powerlaw.combined', sub, out, n)
             if c is not None:
                 r.transitions += 1
                 r.expect_close('powerlaw.combined-identical', sub, c, 2.0 ** b * a1, rtol=1e-9)
-        ok, out = r.call('powerlaw.gm.returns', sub, im.calc_cyc_amp_gm_arrays_w_power_law, x.copy(), x.copy(), NCYC, b)
+        # the same number of cycles held in an ndarray (0-d, one element)
+        for cname, n_arr in (('0-d', np.array(NCYC)), ('(1,)', np.array([NCYC]))):
+            s2 = dict(sub, n_cyc_container=cname)
+            r.cls('n_cyc:' + cname)
+            r.states += 1
+            ok, out = pcall(r, 'powerlaw.combined.returns', s2, im.calc_cyc_amp_combined_arrays_w_power_law, x.copy(),
+                            x.copy(), n_arr, b)
+            if ok:
+                cc = check_series(r, 'powerlaw.combined', s2, out, n)
+                if cc is not None:
+                    r.transitions += 1
+                    r.expect_close('powerlaw.combined-identical', s2, cc, 2.0 ** b * a1, rtol=1e-9)
+        ok, out = pcall(r, 'powerlaw.gm.returns', sub, im.calc_cyc_amp_gm_arrays_w_power_law, x.copy(), x.copy(), NCYC, b)
         if ok:
             g = check_series(r, 'powerlaw.gm', sub, out, n)
             if g is not None:
@@ -357,14 +480,14 @@ def run_power(r, w):
         for yname, y in (ys[1:] if b == BS[1] else ys[:1]):
             s2 = dict(sub, second=yname)
             r.states += 1
-            ok, out = r.call('powerlaw.amp.returns', s2, im.calc_cyc_amp_array_w_power_law, y.copy(), NCYC, b)
+            ok, out = pcall(r, 'powerlaw.amp.returns', s2, im.calc_cyc_amp_array_w_power_law, y.copy(), NCYC, b)
             ay = check_series(r, 'powerlaw.amp', s2, out, n) if ok else None
             got = {}
             for fname, fn in (('gm', im.calc_cyc_amp_gm_arrays_w_power_law),
                               ('combined', im.calc_cyc_amp_combined_arrays_w_power_law)):
                 for order in ('xy', 'yx'):
                     p, q = (x, y) if order == 'xy' else (y, x)
-                    ok, out = r.call('powerlaw.%s.returns' % fname, dict(s2, order=order), fn, p.copy(), q.copy(), NCYC, b)
+                    ok, out = pcall(r, 'powerlaw.%s.returns' % fname, dict(s2, order=order), fn, p.copy(), q.copy(), NCYC, b)
                     if ok:
                         got[(fname, order)] = check_series(r, 'powerlaw.' + fname, dict(s2, order=order), out, n)
             if ay is not None and got.get(('gm', 'xy')) is not None:
@@ -382,7 +505,7 @@ def run_power(r, w):
     sub = {'w': w, 'b': list(B_ARR), 'a_ref': 2.0, 'cut_off': 0.0}
     r.cls('array-b')
     r.states += 1
-    ok, out = r.call('powerlaw.array-b.n', sub, im.calc_n_cyc_array_w_power_law, x.copy(), 2.0, barr, cut_off=0.0)
+    ok, out = pcall(r, 'powerlaw.array-b.n', sub, im.calc_n_cyc_array_w_power_law, x.copy(), 2.0, barr, cut_off=0.0)
     if ok:
         nb = check_series(r, 'powerlaw.array-b.n', sub, out, n, ncol=len(B_ARR))
         if nb is not None:
@@ -390,10 +513,29 @@ def run_power(r, w):
                 if (b, 0.0, 2.0) in n_cache:
                     r.transitions += 1
                     r.expect_close('powerlaw.array-b.n', dict(sub, column=j), nb[:, j], n_cache[(b, 0.0, 2.0)], rtol=1e-9)
+        # mutually inverse with array b: N = last row of the cycle series (one N per exponent), as returned
+        try:
+            rowb = out[-1]
+        except Exception:
+            rowb = None
+        if nb is not None and rowb is not None and np.all(nb[-1] > 0):
+            r.cls('inverse-array-b')
+            s2 = dict(sub, n_cyc='last row of the cycle series')
+            nb = np.array(nb)
+            ok, out2 = pcall(r, 'powerlaw.array-b.amp', s2, im.calc_cyc_amp_array_w_power_law, x.copy(), rowb, barr)
+            if ok:
+                ab = check_series(r, 'powerlaw.array-b.amp', s2, out2, n, ncol=len(B_ARR))
+                if ab is not None:
+                    r.transitions += 1
+                    r.expect_close('powerlaw.array-b.inverse', s2, ab[-1], np.full(len(B_ARR), 2.0), rtol=1e-9,
+                                   what='amplitude for N = cycles(a_ref) at the end of the record, per exponent')
+            after = as_series(out, n, ncol=len(B_ARR))
+            r.expect('powerlaw.result-stable', s2, after is not None and np.array_equal(after, nb),
+                     'the cycle series changed while its last row was used as n_cyc', observed=after, expected=nb)
     sub = {'w': w, 'b': list(B_ARR), 'n_cyc': NCYC}
     for fname, fn, args in (('amp', im.calc_cyc_amp_array_w_power_law, (x.copy(),)),
                             ('gm', im.calc_cyc_amp_gm_arrays_w_power_law, (x.copy(), x.copy()))):
-        ok, out = r.call('powerlaw.array-b.' + fname, sub, fn, *(args + (NCYC, barr)))
+        ok, out = pcall(r, 'powerlaw.array-b.' + fname, sub, fn, *(args + (NCYC, barr)))
         if ok:
             ab = check_series(r, 'powerlaw.array-b.' + fname, sub, out, n, ncol=len(B_ARR))
             if ab is not None:
@@ -408,13 +550,13 @@ def run_power(r, w):
         b = 0.34
         sub = {'w': w, 'b': b, 'cut_off': 0.1, 'a_ref': 2.0, 'input': 'int'}
         r.states += 1
-        ok, out = r.call('powerlaw.n.returns', sub, im.calc_n_cyc_array_w_power_law, xi, 2.0, b, cut_off=0.1)
+        ok, out = pcall(r, 'powerlaw.n.returns', sub, im.calc_n_cyc_array_w_power_law, xi, 2.0, b, cut_off=0.1)
         if ok and (b, 0.1, 2.0) in n_cache:
             ni = check_series(r, 'powerlaw.n', sub, out, n)
             if ni is not None:
                 r.expect_close('powerlaw.int-input', sub, ni, n_cache[(b, 0.1, 2.0)], rtol=1e-9)
         sub = {'w': w, 'b': b, 'n_cyc': NCYC, 'input': 'int'}
-        ok, out = r.call('powerlaw.amp.returns', sub, im.calc_cyc_amp_array_w_power_law, xi, NCYC, b)
+        ok, out = pcall(r, 'powerlaw.amp.returns', sub, im.calc_cyc_amp_array_w_power_law, xi, NCYC, b)
         if ok and b in a_cache:
             ai = check_series(r, 'powerlaw.amp', sub, out, n)
             if ai is not None:
@@ -435,13 +577,17 @@ def snippet(case, v):
     kind, w = case[0], case[1]
     if kind == 'd':
         return ("import numpy as np\nfrom eqsig.fns import peaks_and_crossings as pc\n"
-                "w = %r\nsub = %r\nx = np.array(w, float) + sub.get('offset', 0)\n"
+                "w = %r\nsub = %r\nx = np.array(w, float) * sub.get('scale', 1) + sub.get('offset', 0)\n"
                 "print(pc.determine_peaks_only_delta_series(x))\nprint(pc.determine_pseudo_cyclic_peak_only_series(x))\n"
-                "print('total variation', np.sum(np.abs(np.diff(w))), 'end-start', w[-1] - w[0])\n" % (w, v.get('sub')))
+                "print('total variation', np.sum(np.abs(np.diff(x))), 'end-start', x[-1] - x[0])\n" % (w, v.get('sub')))
     return ("import numpy as np\nfrom eqsig import im\nfrom eqsig.fns import peaks_and_crossings as pc\n"
             "w = %r\nsub = %r\nx = np.array(w, float)\n"
             "print('switched peaks', pc.get_switched_peak_array_indices(x))\n"
             "b = sub['b'] if not isinstance(sub['b'], list) else np.array(sub['b'])\n"
             "n = im.calc_n_cyc_array_w_power_law(x, sub.get('a_ref', 2.0), b, cut_off=sub.get('cut_off', 0.0)); print('n', n)\n"
             "print('amp(N=n[-1])', im.calc_cyc_amp_array_w_power_law(x, n[-1], b))\n"
-            "print('amp(N=7.5)', im.calc_cyc_amp_array_w_power_law(x, 7.5, b))\n" % (w, v.get('sub')))
+            "print('amp(N=7.5)', im.calc_cyc_amp_array_w_power_law(x, 7.5, b))\n"
+            "if not isinstance(sub['b'], list):\n"
+            "    row = n[-1]; print('N object', repr(row))\n"
+            "    print('combined(x, x, N)[-1]', im.calc_cyc_amp_combined_arrays_w_power_law(x, x.copy(), row, b)[-1], 'N object now', repr(row))\n"
+            "    print('amp(N)[-1] afterwards', im.calc_cyc_amp_array_w_power_law(x, row, b)[-1])\n" % (w, v.get('sub')))
